@@ -55,6 +55,7 @@ class Package:
                     if isinstance(d, ast.Attribute) and d.attr in ("setter", "deleter"):
                         key = f"{s.name}.{d.attr}"
                 ci.methods[key] = s
+                s._sa_owner = (self, ci.name)       # lets an analysis handed only the FunctionDef find sibling methods (eqmodel)
             elif isinstance(s, ast.Assign):
                 for t in s.targets:
                     if isinstance(t, ast.Name):
